@@ -533,6 +533,12 @@ class SA:
         if not 0 <= c < n:
             E.prove(z3.BoolVal(False), "index-in-range", dict(axis_len=n, index=c))
             raise Abort()
+        # an index derived from symbolic data that is in range on this whole path
+        st = E.clauses.setdefault("index-in-range", dict(obligations=0, discharged=0, violated=0, unknown=0))
+        st["obligations"] += 1
+        st["discharged"] += 1
+        E.obligations += 1
+        E.discharged += 1
         return c
 
     def _key1(self, k, n):
